@@ -14,10 +14,12 @@ TEXT_FUNCS = {"indent", "dedent", "fill", "wrap", "shorten", "sub", "subn"}  # t
 
 
 class Taint(object):
-    def __init__(self, top, src):
+    def __init__(self, top, src, helpers=None):
         self.top = top
         self.src = src
         self.nested = {n.name: n for n in ast.walk(top) if isinstance(n, ast.FunctionDef) and n is not top}
+        for nm, node in (helpers or {}).items():
+            self.nested.setdefault(nm, node)  # module-level functions / methods the serialiser was split into
         self.findings = []  # (line, kind, text)
         self.memo = {}
         self.stack = []
@@ -79,10 +81,13 @@ class Taint(object):
     def call(self, e, env):
         args_t = [self.ev(a, env) for a in e.args] + [self.ev(k.value, env) for k in e.keywords]
         f = e.func
-        if isinstance(f, ast.Name) and f.id in self.nested:
+        callee = f.id if isinstance(f, ast.Name) else f.attr if (isinstance(f, ast.Attribute) and isinstance(f.value, ast.Name) and f.value.id in ("self", "cls")) else None
+        if callee in self.nested:
             self.calls += 1
-            fn = self.nested[f.id]
+            fn = self.nested[callee]
             params = [a.arg for a in fn.args.args]
+            if isinstance(f, ast.Attribute) and params and params[0] in ("self", "cls"):
+                params = params[1:]
             tainted = frozenset(p for p, t in zip(params, args_t) if t) | frozenset(k.arg for k in e.keywords if k.arg and self.ev(k.value, env))
             self.run_fn(fn, tainted)
             return True  # what a serialiser helper returns is serialised text
@@ -164,8 +169,8 @@ class Taint(object):
                 self.block(s.finalbody, env)
 
 
-def analyse(fn_node, src):
-    t = Taint(fn_node, src)
+def analyse(fn_node, src, helpers=None):
+    t = Taint(fn_node, src, helpers)
     env = {}
     for _ in range(2):
         t.block(fn_node.body, env)
